@@ -53,8 +53,10 @@ def families():
     sc, cc = _ang("c")
     s3 = trigpoly._const_sqrt(Fraction(1, 3))
     out = []
-    out.append(Fam("bit_flip", f"{F}:BitFlipChannel", ["t"], [s, c], lambda: cirq.bit_flip(s * s), lambda: [_scale(I2, c), _scale(X, s)]))
-    out.append(Fam("phase_flip", f"{F}:PhaseFlipChannel", ["t"], [s, c], lambda: cirq.phase_flip(s * s), lambda: [_scale(I2, c), _scale(Z, s)]))
+    out.append(Fam("bit_flip", f"{F}:BitFlipChannel", ["t"], [s, c], lambda: cirq.bit_flip(s * s), lambda: [_scale(I2, c), _scale(X, s)],
+                   boundary=[("p=0", lambda: cirq.bit_flip(0.0), lambda: [I2]), ("p=1", lambda: cirq.bit_flip(1.0), lambda: [X])]))
+    out.append(Fam("phase_flip", f"{F}:PhaseFlipChannel", ["t"], [s, c], lambda: cirq.phase_flip(s * s), lambda: [_scale(I2, c), _scale(Z, s)],
+                   boundary=[("p=0", lambda: cirq.phase_flip(0.0), lambda: [I2]), ("p=1", lambda: cirq.phase_flip(1.0), lambda: [Z])]))
     out.append(Fam("depolarize", f"{F}:DepolarizingChannel", ["t"], [s, c], lambda: cirq.depolarize(s * s),
                    lambda: [_scale(I2, c), _scale(X, s * s3), _scale(Y, s * s3), _scale(Z, s * s3)]))
     px, py, pz = (sa * cb) * (sa * cb), (sa * sb * cc) * (sa * sb * cc), (sa * sb * sc) * (sa * sb * sc)
@@ -66,11 +68,21 @@ def families():
     out.append(Fam("asymmetric_depolarize(error_probabilities={Y: px, X: py}) [unsorted keys, implied identity]", f"{F}:AsymmetricDepolarizingChannel", ["a", "b"], [sa, ca, sa * cb, sa * sb],
                    lambda: cirq.asymmetric_depolarize(error_probabilities={"Y": (sa * cb) * (sa * cb), "X": (sa * sb) * (sa * sb)}),
                    lambda: [_scale(I2, ca), _scale(Y, sa * cb), _scale(X, sa * sb)]))
+    P0, P1, L01, L10 = O([[1, 0], [0, 0]]), O([[0, 0], [0, 1]]), O([[0, 1], [0, 0]]), O([[0, 0], [1, 0]])
     out.append(Fam("amplitude_damp", f"{F}:AmplitudeDampingChannel", ["g"], [sg, cg], lambda: cirq.amplitude_damp(sg * sg),
-                   lambda: [O([[1, 0], [0, cg]]), O([[0, sg], [0, 0]])]))
+                   lambda: [O([[1, 0], [0, cg]]), O([[0, sg], [0, 0]])],
+                   boundary=[("gamma=0", lambda: cirq.amplitude_damp(0), lambda: [I2]), ("gamma=1", lambda: cirq.amplitude_damp(1), lambda: [P0, L01]),
+                             ("gamma=1.0", lambda: cirq.amplitude_damp(1.0), lambda: [P0, L01])]))
     out.append(Fam("generalized_amplitude_damp", f"{F}:GeneralizedAmplitudeDampingChannel", ["t", "g"], [s, c, sg, cg],
                    lambda: cirq.generalized_amplitude_damp(s * s, sg * sg),
-                   lambda: [_scale(O([[1, 0], [0, cg]]), s), _scale(O([[0, sg], [0, 0]]), s), _scale(O([[cg, 0], [0, 1]]), c), _scale(O([[0, 0], [sg, 0]]), c)]))
+                   lambda: [_scale(O([[1, 0], [0, cg]]), s), _scale(O([[0, sg], [0, 0]]), s), _scale(O([[cg, 0], [0, 1]]), c), _scale(O([[0, 0], [sg, 0]]), c)],
+                   # full damping is a reset only for p = 1: for p < 1 the state becomes p |0><0| + (1 - p) |1><1|
+                   boundary=[("gamma=1, all p", lambda: cirq.generalized_amplitude_damp(s * s, 1.0), lambda: [_scale(P0, s), _scale(L01, s), _scale(P1, c), _scale(L10, c)]),
+                             ("gamma=1 (int), all p", lambda: cirq.generalized_amplitude_damp(s * s, 1), lambda: [_scale(P0, s), _scale(L01, s), _scale(P1, c), _scale(L10, c)]),
+                             ("gamma=0, all p", lambda: cirq.generalized_amplitude_damp(s * s, 0.0), lambda: [I2]),
+                             ("p=1, all gamma", lambda: cirq.generalized_amplitude_damp(1.0, sg * sg), lambda: [O([[1, 0], [0, cg]]), O([[0, sg], [0, 0]])]),
+                             ("p=0, all gamma", lambda: cirq.generalized_amplitude_damp(0.0, sg * sg), lambda: [O([[cg, 0], [0, 1]]), O([[0, 0], [sg, 0]])]),
+                             ("p=1, gamma=1", lambda: cirq.generalized_amplitude_damp(1.0, 1.0), lambda: [P0, L01]), ("p=0, gamma=1", lambda: cirq.generalized_amplitude_damp(0.0, 1.0), lambda: [P1, L10])]))
     out.append(Fam("phase_damp", f"{F}:PhaseDampingChannel", ["g"], [sg, cg], lambda: cirq.phase_damp(sg * sg),
                    lambda: [O([[1, 0], [0, cg]]), O([[0, 0], [0, sg]])],
                    boundary=[("gamma=0", lambda: cirq.phase_damp(0), lambda: [I2]), ("gamma=1", lambda: cirq.phase_damp(1), lambda: [O([[1, 0], [0, 0]]), O([[0, 0], [0, 1]])])]))
